@@ -47,8 +47,11 @@ func caseGen() *rapid.Generator[Case] {
 				}
 				continue
 			case "op":
-				op := gen.Op{K: rapid.SampledFrom([]string{"hdr", "rowitems", "rowitems", "rowitems", "sep", "appendnew", "newrow", "newrowsized", "rowadd", "rowadd", "rowadd", "addrow", "addrow", "zerorow"}).Draw(t, "kind")}
+				op := gen.Op{K: rapid.SampledFrom([]string{"hdr", "rowitems", "rowitems", "rowitems", "sep", "appendnew", "newrow", "newrowsized", "rowadd", "rowadd", "rowadd", "addrow", "addrow", "zerorow", "prop"}).Draw(t, "kind")}
 				switch op.K {
+				case "prop":
+					// the well-known column properties (alignment, skipable) and user keys: callbacks fire whatever the columns carry
+					op.P = &gen.PropOp{Col: rapid.SampledFrom([]int{0, 0, 1, 2, -1}).Draw(t, "pcol"), Key: rapid.SampledFrom([]string{"skip", "skip", "align", "u0"}).Draw(t, "pkey"), Val: rapid.IntRange(0, 3).Draw(t, "pval")}
 				case "hdr", "rowitems":
 					ncell := rapid.IntRange(0, 3).Draw(t, "cells")
 					if rapid.IntRange(0, 14).Draw(t, "wide") == 0 {
